@@ -11,6 +11,9 @@ EXTENDS Naturals, Sequences, FiniteSets, TLC, Json, IOUtils
 
 Trace == ndJsonDeserialize(IOEnv.VERIF_TRACE)
 N == Len(Trace)
+Prop == IF "VERIF_PROP" \in DOMAIN IOEnv THEN IOEnv.VERIF_PROP ELSE "ALL"
+ON(p) == Prop = p \/ Prop = "ALL"
+G(p, cond) == ON(p) => cond
 VARIABLES l, live, idOf, known
 vars == <<l, live, idOf, known>>
 Ev == Trace[l]
@@ -34,8 +37,7 @@ Op ==
 SeqSet(q) == {q[i] : i \in 1..Len(q)}
 Holder(u) == IF \E s \in live : idOf[s] = u THEN CHOOSE s \in live : idOf[s] = u ELSE ""
 
-Probe ==
-  /\ Is("Probe")
+ProbeOK ==
   /\ SeqSet(Ev.range) = {<<idOf[s], s>> : s \in live}          \* RangeSession
   /\ Len(Ev.range) = Cardinality(live)                         \* no duplicates
   /\ Ev.count = Cardinality(live)                              \* CountSession
@@ -45,10 +47,15 @@ Probe ==
         LET e == Ev.sess[i] IN
         IF e.s \in live THEN e.health /\ ~e.notified /\ e.hooks = 0
                         ELSE ~e.health /\ e.notified /\ e.hooks = 1 /\ e.postcall = 102
-  /\ UNCHANGED <<live, idOf, known>> /\ Step
+Probe == Is("Probe") /\ G("C07", ProbeOK) /\ UNCHANGED <<live, idOf, known>> /\ Step
 
-Skip == l <= N /\ Ev.ev \notin {"Reset", "Op", "Probe"} /\ UNCHANGED <<live, idOf, known>> /\ Step
-Next == Reset \/ Op \/ Probe \/ Skip
+\* C08 at the end of a history: Peer.Close() is called while handlers of live sessions are still running (busylive of
+\* them): it returns only after they have finished -- whichever session holds which id by now
+PeerClose == Is("PeerClose") /\ G("C08", (Ev.busylive > 0 => ~Ev.early) /\ Ev.returned)
+             /\ UNCHANGED <<live, idOf, known>> /\ Step
+
+Skip == l <= N /\ Ev.ev \notin {"Reset", "Op", "Probe", "PeerClose"} /\ UNCHANGED <<live, idOf, known>> /\ Step
+Next == Reset \/ Op \/ Probe \/ PeerClose \/ Skip
 Spec == Init /\ [][Next]_vars
 Accepted == PrintT(<<"HWM", TLCGet(1), N>>) /\ TRUE
 =============================================================================
